@@ -26,6 +26,7 @@ LEVEL_TEXT = (
     "is compared with the order documented in SearchSpace.__init__'s docstring, lowest offending index first. "
     "Also decides the exception classes' attribute stores, the arange-based grid construction (one index, dims "
     "columns, running product) and the form of the end-point slack. np.arange's own end-point arithmetic is not decided."
+    ' A tolerant comparison (isclose / abs(...) < eps) in the validator, a grid filtered by exact comparison with the bound, and a rounding re-binding of the arange column are findings.'
 )
 TECHNIQUE = "finite order-class abstract evaluation with licence check + formula normal form of the grid constructor"
 
